@@ -15,6 +15,7 @@ CONSTANTS MaxRows,      \* rows + separators in the table
           MaxDetached,  \* detached rows alive at once
           MaxHdr,       \* AddHeaders calls
           MaxHist,      \* operations per history
+          ReAdd,        \* TRUE: a row already in the table may be added once more
           ItemMode,     \* "plain": tiny strings; "mixed": also multi-line, empty, nil and size-lying items (C09)
           GenFile       \* scenario output ("" = none)
 
@@ -55,6 +56,10 @@ Ops ==
               [op |-> "newrow", how |-> "cap", t |-> 1, cap |-> 0]} ELSE {})
   \cup {[op |-> "rowadd", r |-> r, item |-> d] : r \in {x \in DOMAIN st.row : CanGrow(x)}, d \in LateItems}
   \cup {[op |-> "addrow", t |-> 1, r |-> r] : r \in IF NRows < MaxRows THEN Detached ELSE {}}
+  \* a row that already is in the table is added again (at most once per history)
+  \cup {[op |-> "addrow", t |-> 1, r |-> r] :
+          r \in IF NRows < MaxRows /\ ReAdd /\ Cardinality({i \in DOMAIN T.rows : \E j \in DOMAIN T.rows : j # i /\ T.rows[i] = T.rows[j]}) = 0
+                THEN {x \in DOMAIN st.row : st.row[x].tbl # 0 /\ ~st.row[x].sep} ELSE {}}
 
 NewT == [op |-> "newtable", via |-> "core"]
 Init == /\ st = Apply(InitState, NewT, <<>>) /\ hist = <<NewT>>
